@@ -309,6 +309,17 @@ theorem applySeq_idem (ps : List TPath) : ∀ (xs : List Val) (p : TPath) (i : N
     · simp [applySeq, hm, applyNull_idem ps e _, applySeq_idem ps r p (i + 1)]
 end
 
+/-- `Apply` on the empty model deletes nothing -/
+theorem applyNull_empty (ps : List TPath) : Reset.applyNull ps (.map []) TPath.root = .map [] := by
+  simp [Reset.applyNull, Reset.applyKVs]
+
+/-- **tags in the first document only strip**: with nothing loaded yet a `!reset` node is simply absent and an
+`!override` node is its plain value — the first file of a load (and a file loaded alone) goes through the pipeline as
+its stripped tree -/
+theorem first_document_tags_only_strip (c : Cfg) (n : Reset.YNode) (cfg : Val.KVs) (paths : List TPath)
+    (h : Reset.readDoc n = (.map cfg, paths)) : processNode c (.map []) n = processDoc c (.map []) cfg := by
+  rw [tagged_document_is_stripped_tree_after_apply c _ n cfg paths h, applyNull_empty]
+
 /-- the stages of `processRawYaml` after the first `EnforceUnicity` -/
 def restStages (c : Cfg) (u : Val) : Out Val :=
   (schemaStage c.opts u).bind fun d =>
